@@ -71,22 +71,24 @@ Definition sequence_pattern_str (c : cond) (o : obj) : bool :=
   has_seqis_false c && sub_art (class_of o) CStr.
 
 (* ---- clause assert_promotion --------------------------------------------
-   ConstraintType.is_instance / is_value (assert_is_instance, assert_is) compare classes with the
-   real issubclass / isinstance, without the int -> float -> complex promotion that membership in
-   a declared type has: x: float, assert_is_instance(x, int) leaves Never although 1 passes *)
-Fixpoint has_assert (c : cond) : bool :=
-  match c with
-  | CAssertInst _ | CAssertIs _ => true
-  | CNot c => has_assert c
-  | CPAnd a b => has_assert a || has_assert b
-  | CAnd a b => has_assert a || has_assert b
-  | COr a b => has_assert a || has_assert b
-  | _ => false
-  end.
+   ConstraintType.is_instance applied negatively drops a declared class that is a subclass of
+   the tested one by the real issubclass, without regard to the int -> float -> complex
+   promotion that membership in a declared type has: x: float with "not an instance of float"
+   leaves Never although 1 (a member of float, not an instance) passes.  (The positive branch
+   was repaired: x: float, assert_is_instance(x, int) now gives int.)  Only reachable through
+   constrain_value: assert statements use the positive branch only. *)
 Definition numeric_cls (k : cls) : bool := sub k CInt || sub k CFloat.
 Definition numeric_like (o : obj) : bool :=
   match o with OClass k => numeric_cls k | _ => numeric_cls (class_of o) end.
-Definition assert_promotion (c : cond) (o : obj) : bool := has_assert c && numeric_like o.
+Fixpoint assert_promotion (c : cond) (o : obj) : bool :=
+  match c with
+  | CAssertInst c1 => negb (isinst o c1) && numeric_like o
+  | CNot c => assert_promotion c o
+  | CPAnd a b => assert_promotion a o || assert_promotion b o
+  | CAnd a b => assert_promotion a o || assert_promotion b o
+  | COr a b => assert_promotion a o || assert_promotion b o
+  | _ => false
+  end.
 
 (* ---- clause generic_pattern_negative ------------------------------------
    TypeIs[list[int]] in the negative branch drops every list type that is assignable to list[int],
